@@ -8,6 +8,7 @@ import (
 	"go/ast"
 	"go/build"
 	"sort"
+	"sync"
 
 	"github.com/dave/dst/decorator/resolver"
 	"github.com/dave/dst/decorator/resolver/gobuild"
@@ -105,6 +106,10 @@ func (w *Ident) ResolveIdent(file *ast.File, parent ast.Node, parentField string
 
 // Pkg wraps a RestorerResolver.
 type Pkg struct {
+	// mu: one wrapper belongs to one caller (never shared between simulated workers, so it orders
+	// nothing the properties care about), but a changed dst may call it from goroutines of its own
+	// and that must show as a property violation, not crash the harness's bookkeeping.
+	mu    sync.Mutex
 	Inner resolver.RestorerResolver
 	Plan  *Plan
 	Calls int
@@ -117,6 +122,8 @@ func (w *Pkg) ResolvePackage(path string) (string, error) {
 	if w.Yield != nil {
 		w.Yield("pkg")
 	}
+	w.mu.Lock()
+	defer w.mu.Unlock()
 	w.Calls++
 	if w.Seen == nil {
 		w.Seen = map[string]int{}
